@@ -172,6 +172,17 @@ def _bordered():
     return a
 
 
+class _Meta(np.ndarray):
+    """a metadata-carrying ndarray subclass"""
+    def __new__(cls, a):
+        o = np.asarray(a).view(cls)
+        o.note = 'user metadata'
+        return o
+
+    def __array_finalize__(self, obj):
+        self.note = getattr(obj, 'note', None)
+
+
 PLANE_VARIANTS = [
     lambda ps: dict(amplitude=1),
     lambda ps: dict(amplitude=np.ones((4, 4))),
@@ -188,6 +199,11 @@ PLANE_VARIANTS = [
     lambda ps: dict(amplitude=np.array(1.5), opd=np.array(0.0), mask=np.ones((4, 4), dtype=np.uint8)),
     lambda ps: dict(amplitude=_ramp((7, 9)), pixelscale=ps),
     lambda ps: dict(amplitude=3.0, pixelscale=ps),
+    # ndarray subclasses are legal array_like inputs; a 1x1 array is an aperture of one sample
+    lambda ps: dict(amplitude=np.ma.array(_ramp((4, 4))), opd=np.ma.array(np.zeros((4, 4)), mask=False)),
+    lambda ps: dict(amplitude=np.matrix(np.ones((4, 4))), pixelscale=ps),
+    lambda ps: dict(amplitude=np.ones((1, 1))),
+    lambda ps: dict(amplitude=_Meta(_ramp((4, 4))), mask=_Meta(np.ones((4, 4)))),
 ]
 # Tilts are kept small: one tilt plane displaces the propagated field by at most 1/32 output sample
 # (angle * focal length / pixel scale), so that 40 of them displace it by little more than one sample
@@ -204,6 +220,23 @@ DFT_VARIANTS = [('scalar', 2, (4, 4)), ('scalar', 1, 4), ('scalar', 3, (2, 3)), 
                 ('scalar', 1, (8, 8)), ('tuple', 2, [4, 4]), ('array', 1, np.array([5, 4]))]
 FFT_VARIANTS = [('scalar', 2, None), ('scalar', 1, None), ('scalar', 2, 2), ('scalar', 1, (4, 4)),
                 ('tuple', 2, None), ('list', 1, [3, 4])]
+# the same integers as they come out of numpy (np.arange, np.max, arr[0], ...): every variant index beyond
+# the lists above re-uses a variant with oversample (and an integer shape) of one of these types
+NP_INTS = [np.int64, np.int32, np.intp, np.uint8, np.int16]
+DFT_NFORMS = len(DFT_VARIANTS) * 2
+FFT_NFORMS = len(FFT_VARIANTS) * 2
+
+
+def _prop_args(variants, v):
+    form, os_, shape = variants[v % len(variants)]
+    if (v // len(variants)) % 2:
+        t = NP_INTS[v % len(NP_INTS)]
+        os_ = t(os_)
+        if isinstance(shape, int):
+            shape = t(shape)
+        elif isinstance(shape, tuple):
+            shape = tuple(t(x) for x in shape)
+    return form, os_, shape
 
 
 def _du(reg, form, os_):
@@ -234,13 +267,13 @@ CLIP_VARIANTS = [
 
 def n_variants(kind, name, clip=False):
     if kind == 'fresh':
-        return 2
+        return 8
     if clip and kind in ('mulp', 'mulc') and name not in ('Rotate', 'Flip'):
         return len(CLIP_VARIANTS) * (2 if name == 'Pupil' else 1)
     if kind == 'mulp':
         return len(PLANE_VARIANTS)
     if kind == 'prop':
-        return len(DFT_VARIANTS) if name == 'dft' else len(FFT_VARIANTS)
+        return DFT_NFORMS if name == 'dft' else FFT_NFORMS
     # the tilt classes take the Plane keywords too: first the bare forms, then with a sampled aperture
     if name in ('Tilt',):
         return len(TILT_VARIANTS) + len(PLANE_VARIANTS)
@@ -290,8 +323,11 @@ def build_plane(lentil, kind, name, v, clip=False, po=None, reg=REG0, mism=False
             if kind == 'mulp':
                 if name not in PTYPES:
                     raise GeneratorError(f'unknown plane type {name!r}')
-                return lentil.Plane(ptype=(name if v % 2 else getattr(lentil, name)), **samp())
+                pcls = _plane_subclass(lentil, lentil.Plane) if (v // 3) % 3 == 2 else lentil.Plane
+                return pcls(ptype=(name if v % 2 else getattr(lentil, name)), **samp())
             cls = getattr(lentil, name)
+            if (v // 3) % 3 == 2:
+                cls = _plane_subclass(lentil, cls)       # a user subclass that leaves everything alone
             if name == 'Plane':
                 return cls(**samp(), **okw)
             if name == 'Pupil':
@@ -347,10 +383,53 @@ def accepts_override(lentil, name, po):
     return res.pop()
 
 
+# User-defined subclasses.  An instance of a subclass of Wavefront / of a plane class IS a wavefront / a plane
+# of its ptype, so the table applies to it: one that leaves __init__ alone, one whose __init__ takes a further
+# required argument, one whose __init__ pins the type it starts with (the ptype is set afterwards through
+# the public setter).  Defined lazily (the base classes come from the tree under test) and registered as
+# module attributes so that they pickle.
+def _subclasses(lentil):
+    g = globals()
+    if g.get('_SUB_BASE') is not lentil.Wavefront:
+        base = lentil.Wavefront
+
+        class WfSubPlain(base):
+            pass
+
+        class WfSubExtra(base):
+            def __init__(self, source, wavelength, **kw):
+                super().__init__(wavelength, **kw)
+                self.source = source
+
+        class WfSubPinned(base):
+            def __init__(self, wavelength, pixelscale=None, focal_length=None, tilt=None, **kw):
+                super().__init__(wavelength, pixelscale=pixelscale, focal_length=focal_length, tilt=tilt, ptype=None)
+
+        for k in (WfSubPlain, WfSubExtra, WfSubPinned):
+            k.__module__ = __name__
+            k.__qualname__ = k.__name__
+            g[k.__name__] = k
+        g['_SUB_BASE'] = base
+        g['_PLANE_SUBS'] = {}
+    return [None, g['WfSubPlain'], g['WfSubExtra'], g['WfSubPinned']]
+
+
+def _plane_subclass(lentil, cls):
+    _subclasses(lentil)
+    subs = globals()['_PLANE_SUBS']
+    if cls.__name__ not in subs:
+        k = type('Sub' + cls.__name__, (cls,), {'__module__': __name__})
+        k.__qualname__ = k.__name__
+        globals()[k.__name__] = k
+        subs[cls.__name__] = k
+    return subs[cls.__name__]
+
+
 def build_wavefront(lentil, wt, body, v=0, reg=REG0):
     """a wavefront of type wt in the sampling regime reg: 'plain' real field data, 'tilted' the same with a
     tilt object on its field, 'empty' no fields at all (v even: the public Wavefront.empty constructor;
-    v odd: a plain wavefront whose light a disjoint aperture clipped away)"""
+    v odd: a plain wavefront whose light a disjoint aperture clipped away); (v // 2) % 4 selects the class of
+    the object: lentil.Wavefront or one of three user subclasses of it"""
     if wt not in WTYPES or body not in BODIES:
         raise GeneratorError(f'unknown wavefront state {(wt, body)!r}')
     scale, wl, loose = reg
@@ -364,6 +443,12 @@ def build_wavefront(lentil, wt, body, v=0, reg=REG0):
         w = w * lentil.Plane(amplitude=_ramp(shape))
         if body == 'empty':
             w = w * lentil.Plane(amplitude=_corner(1))
+    sub = _subclasses(lentil)[(v // 2) % 4]
+    if sub is not None:
+        kw2 = dict(kw, tilt=None)
+        u = sub('star', wl, **kw2) if sub.__name__ == 'WfSubExtra' else sub(wl, **kw2)
+        u.data, u.shape = w.data, w.shape
+        w = u
     w.ptype = wt if v % 2 else getattr(lentil, wt)      # both documented forms of a plane type
     if state_of(w) != (wt, body):
         raise GeneratorError(f'could not build a wavefront in state ({wt}, {body}): got {state_of(w)}')
@@ -376,11 +461,11 @@ def do_propagate(lentil, m, w, v, reg=REG0):
     with warnings.catch_warnings():
         warnings.simplefilter('ignore')
         if m == 'dft':
-            form, os_, shape = DFT_VARIANTS[v % len(DFT_VARIANTS)]
+            form, os_, shape = _prop_args(DFT_VARIANTS, v)
             du = 5e-6 * os_ if reg[2] else _du(reg, form, os_)     # loose + untyped: must be refused on its type alone
             return lentil.propagate_dft(w, pixelscale=du, shape=shape, oversample=os_)
         if m == 'fft':
-            form, os_, shape = FFT_VARIANTS[v % len(FFT_VARIANTS)]
+            form, os_, shape = _prop_args(FFT_VARIANTS, v)
             du = 5e-6 * os_ if reg[2] else _du(reg, form, os_)
             return lentil.propagate_fft(w, pixelscale=du, shape=shape, oversample=os_)
     raise GeneratorError(f'unknown propagation method {m!r}')
@@ -463,8 +548,9 @@ def observe_all():
                 lo = [r for r in LOOSE if not (mism and r[0] is None)]
                 regs.append(lo[(v + si) % len(lo)])
             for reg in regs:
-                for wv in ((0, 1) if st[1] == 'empty' else (v % 2,)):
+                for wv0 in ((0, 1) if st[1] == 'empty' else (v % 2,)):
                     j += 1
+                    wv = wv0 + 2 * ((j // 2) % 4)        # lentil.Wavefront and the user subclasses of it
                     pr, wr = ROUTES_P[j % len(ROUTES_P)], ROUTES_W[(j + j // 5) % len(ROUTES_W)]
                     outr = ROUTES_W[(j + 1 + j // 4) % len(ROUTES_W)]
                     w = route(build_wavefront(lentil, st[0], st[1], wv, reg), wr)
